@@ -130,6 +130,24 @@ def build_coq(prop_id, extra_targets=(), timeout=900):
     return res
 
 
+def run_coqchk(prop_id, timeout=900):
+    """independent re-check of the compiled property file and everything it depends on (thorough tier);
+    returns (ok, axioms reported, tail of the output)"""
+    rc, out = sh(["coqchk", "-silent", "-o", "-Q", ".", "SosModel", "SosModel.props.%s" % prop_id], cwd=COQ, timeout=timeout)
+    axioms = []
+    m = re.search(r"\* Axioms:(.*?)\n\s*\n\* ", out, re.S)
+    if m:
+        body = m.group(1).strip()
+        if body and body != "<none>":
+            axioms = [x.strip() for x in body.splitlines() if x.strip() and x.strip() != "<none>"]
+    bad = []
+    for key in ("type-in-type", "unsafe (co)fixpoints", "positivity is assumed"):
+        mm = re.search(re.escape(key) + r":(.*?)\n\s*\n", out + "\n\n", re.S)
+        if mm and mm.group(1).strip() not in ("", "<none>"):
+            bad.append("%s: %s" % (key, mm.group(1).strip()[:200]))
+    return rc == 0 and not bad, axioms, bad, out[-600:]
+
+
 def build_driver():
     rc, out = sh(["sh", os.path.join(DRIVER, "build.sh")], cwd=DRIVER, timeout=600)
     return rc == 0, out
@@ -263,6 +281,13 @@ class Run:
             bad = [a for a in ax if a not in allowed]
             if bad:
                 coq["problems"].append("%s depends on axioms not allow-listed: %s" % (thm, bad))
+                coq["ok"] = False
+        if self.tier == "thorough" and coq["ok"]:
+            ck_ok, ck_axioms, ck_bad, ck_tail = run_coqchk(pid)
+            coq["coqchk"] = {"ok": ck_ok, "axioms": ck_axioms, "relaxed_checks": ck_bad}
+            not_allowed = [a for a in ck_axioms if a not in allowed]
+            if not ck_ok or not_allowed:
+                coq["problems"].append("coqchk: %s %s %s" % ("failed" if not ck_ok else "", not_allowed, ck_tail[-200:] if not ck_ok else ""))
                 coq["ok"] = False
         model_ok = coq["ok"]
         drv_ok, drv_log = (False, "coq build failed")
@@ -399,6 +424,7 @@ class Run:
             "trusted_base": list(getattr(mod, "TRUSTED_BASE", [])) + COMMON_TRUSTED,
             "axioms_per_theorem": {k: (v or "Closed under the global context") for k, v in coq["axioms"].items()},
             "coq_problems": coq["problems"],
+            "coqchk": coq.get("coqchk", "not run in the quick tier (thorough: coqchk -o on the property's closure)"),
             "evaluations": len(cases),
             "distinct_nontrivial": n_nontrivial,
             "rule": getattr(mod, "RULE", ""),
